@@ -313,11 +313,17 @@ def shard_history(ctx, arg):
         removed = []
         for step in range(rng.randint(1, 10)):
             r = rng.random()
-            if r < 0.35:
+            if r < 0.2:
                 a, b = rng.choice(nodes), rng.choice(nodes)
                 g.add_edge(a, b)
                 succ[a].add(b)
                 hist.append(("edge", nodes.index(a), nodes.index(b)))
+            elif r < 0.35:
+                # exception edge (try block -> handler): a successor like any other for dominators and numbering
+                a, b = rng.choice(nodes), rng.choice(nodes[1:])
+                g.add_catch_edge(a, b)
+                succ[a].add(b)
+                hist.append(("catch-edge", nodes.index(a), nodes.index(b)))
             elif r < 0.5:
                 nd = new_node()
                 p = rng.choice(nodes[:-1])
@@ -382,6 +388,141 @@ def shard_history(ctx, arg):
             ctx.sig(which, "hist", len(nodes), tuple(h[0] for h in hist)[-4:])
 
 
+def shard_pipeline(ctx, arg):
+    """runtime monitor on the REAL pipeline: Graph.compute_rpo / Graph.immediate_dominators are wrapped by a postcondition while shipped and
+    generated methods are decompiled (the graphs are the ones construct / split_if_nodes / simplify / the structuring passes leave behind).
+    Ground truth = the graph's own node list and all_sucs at the time of the call."""
+    which, source = arg
+    import glob
+    import os
+    import random
+    from androguard.decompiler import graph as GR
+    from androguard.decompiler.decompile import DvMethod
+    from vf.checks import c21
+    from vf.harness import REPO
+    state = {"cur": None, "calls": 0, "bad": []}
+
+    def model(g):
+        nodes = list(g.nodes)
+        succ = {u: [v for v in g.all_sucs(u)] for u in nodes}
+        return nodes, succ
+
+    if which == "C19":
+        orig = GR.Graph.compute_rpo
+
+        def compute_rpo(self):
+            r = orig(self)
+            state["calls"] += 1
+            nodes, succ = model(self)
+            ent = self.entry
+            if ent not in succ:
+                state["bad"].append(("rpo-entry-is-not-a-node-of-the-graph", state["cur"], {"entry": str(ent), "nodes": [str(x) for x in nodes][:12]}))
+                return r
+            if any(v not in succ for u in nodes for v in succ[u]):
+                return r   # dangling successor: not a graph the statement speaks about
+            reach = _reach({u: set(vs) for u, vs in succ.items()}, ent)
+            if len(reach) != len(nodes):
+                state["unrooted"] = state.get("unrooted", 0) + 1
+                return r
+            num = {u: u.num for u in nodes}
+            bad = None
+            if ent.num != 1:
+                bad = "rpo-entry-not-1"
+            elif sorted(num.values()) != list(range(1, len(nodes) + 1)):
+                bad = "rpo-not-permutation"
+            else:
+                rc = {}
+                for u in nodes:
+                    for v in succ[u]:
+                        if num[u] >= num[v]:
+                            if v not in rc:
+                                rc[v] = _reach({a: set(b) for a, b in succ.items()}, v)
+                            if u not in rc[v]:
+                                bad = "rpo-forward-edge-inverted"
+            if bad:
+                state["bad"].append((bad + "-in-decompilation-pipeline", state["cur"], {"num": {str(u): u.num for u in nodes}, "succ": {str(u): [str(v) for v in succ[u]] for u in nodes}}))
+            elif len(nodes) >= 3:
+                ctx.sig("C19", "pipeline", len(nodes), sum(len(v) for v in succ.values()))
+            return r
+        GR.Graph.compute_rpo = compute_rpo
+    else:
+        orig = GR.Graph.immediate_dominators
+
+        def immediate_dominators(self):
+            r = orig(self)
+            state["calls"] += 1
+            nodes, succ = model(self)
+            if self.entry not in succ or any(v not in succ for u in nodes for v in succ[u]):
+                return r
+            ref = G.idoms_big(succ, self.entry)
+            got = {k: v for k, v in r.items() if k in ref}
+            if got != ref or any(k not in ref and v is not None for k, v in r.items()):
+                state["bad"].append(("dom-wrong-in-decompilation-pipeline", state["cur"], {"got": {str(k): str(v) for k, v in r.items()}, "want": {str(k): str(v) for k, v in ref.items()}}))
+            elif len(nodes) >= 4:
+                ctx.sig("C18", "pipeline", len(nodes), sum(len(v) for v in succ.values()))
+            return r
+        GR.Graph.immediate_dominators = immediate_dominators
+    # ---- workload
+    datas = []
+    if source == "generated":
+        from vf.gen import intprog as IP
+        rng = random.Random("graph-pipeline")
+        ms = IP.pattern_methods(rng) + IP.random_methods(rng, "P5", 150 if ctx.quick else 1500) + IP.random_methods(rng, "P3", 100 if ctx.quick else 1000)
+        cases = c21.to_cases(ms, "GP", rng, {})
+        datas.append(("generated", c21.build_dex(cases)))
+    elif source == "crafted":
+        # entry blocks that end up EMPTY (only a goto / nop / a dead store) in front of loops of every latch shape; loops closed by a plain
+        # statement block (while(true) with a return inside); handlers - shapes javac+dx rarely emit but every DEX may contain
+        from vf.model import dexw as W
+        m = W.DexModel()
+        c = m.add_class("Lg/C;")
+        ST = W.ACC_PUBLIC | W.ACC_STATIC
+        loop_exit_in_middle = [("add-int/lit8", 1, 1, -1), ("if-lez", 1, 4), ("add-int/lit8", 2, 2, 1), ("goto", -5), ("return", 2)]      # regs: v0 scratch, p0=v1, p1=v2
+        loop_bottom = [("add-int/lit8", 2, 2, 3), ("add-int/lit8", 1, 1, -1), ("if-gtz", 1, -4), ("return", 2)]
+        loop_top = [("if-lez", 1, 6), ("add-int/lit8", 2, 2, 3), ("add-int/lit8", 1, 1, -1), ("goto", -6), ("return", 2)]
+        k = 0
+        for pre in ([("goto", 1)], [("nop",), ("goto", 1)], [("const/4", 0, 0)], [("nop",)], [("const/4", 0, 0), ("goto", 1)], []):
+            for body in (loop_exit_in_middle, loop_bottom, loop_top):
+                c.add_method("c%d" % k, "I", ("I", "I"), ST, W.Code(3, 2, 0, list(pre) + list(body)))
+                k += 1
+        # empty entry -> statement block E (loop head, left by a fall-through into a block that is also a jump target) ... -> statement block L -> E
+        for pre in ([("goto", 1)], [("nop",), ("goto", 1)], [("const/4", 0, 0)], [("const/4", 0, 0), ("goto", 1)]):
+            body = [("add-int/lit8", 2, 2, 1),          # E
+                    ("if-lez", 1, 10),                  # A -> X
+                    ("if-gtz", 2, 5),                   # B -> L
+                    ("add-int/lit8", 2, 2, -7),         # M
+                    ("goto", -6),                       #   -> A
+                    ("add-int/lit8", 1, 1, -1),         # L
+                    ("goto", -11),                      #   -> E
+                    ("return", 2)]                      # X
+            c.add_method("c%d" % k, "I", ("I", "I"), ST, W.Code(3, 2, 0, list(pre) + body))
+            k += 1
+        datas.append(("crafted", W.write_dex(m)))
+    else:
+        with open(source, "rb") as f:
+            datas.append((os.path.basename(source), f.read()))
+    for name, data in datas:
+        try:
+            d, dx = c21.load_dad(data)
+        except Exception as e:
+            ctx.inconclusive("pipeline workload: cannot load %s: %r" % (name, e))
+            continue
+        for em in d.get_encoded_methods():
+            if em.get_code() is None:
+                continue
+            state["cur"] = "%s|%s->%s%s" % (name, em.get_class_name(), em.get_name(), em.get_descriptor())
+            ctx.ev()
+            ctx.count("pipeline_methods_decompiled")
+            try:
+                DvMethod(dx.get_method(em)).process()
+            except Exception:
+                ctx.count("pipeline_decompile_raises")
+    ctx.count("pipeline_monitored_calls", state["calls"])
+    ctx.count("pipeline_unrooted_graphs_skipped", state.get("unrooted", 0))
+    for mech, cur, wit in state["bad"]:
+        ctx.violation(mech, "a numbering / dominator tree computed while decompiling a method violates the statement on the graph it was computed for", dict(wit, method=cur))
+
+
 def run(ctx, which):
     ctx.rule = ("real Graph of StatementBlock nodes (edges split between edges/catch_edges); "
                 "exhaustive: every adjacency matrix on n labelled nodes with entry 0 (self-loops, 2-cycles, unreachable nodes included for C18; "
@@ -405,12 +546,21 @@ def run(ctx, which):
         shards.append(("shard_random", (which, i, per, 300)))
     for i in range(4):
         shards.append(("shard_history", (which, i, 500 if ctx.quick else 20000)))
+    import glob
+    import os
+    from vf.harness import REPO
+    shards.append(("shard_pipeline", (which, "generated")))
+    shards.append(("shard_pipeline", (which, "crafted")))
+    for f in sorted(glob.glob(os.path.join(REPO, "tests", "data", "APK", "*.dex"))):
+        if os.path.getsize(f) < (700000 if ctx.quick else 10 ** 9):
+            shards.append(("shard_pipeline", (which, f)))
     # run_shards takes a single func; dispatch through one entry point
     ctx.run_shards(MOD, "dispatch", [[f, list(a)] for f, a in shards], timeout=3000)
     ctx.exhaustive = True
     ctx.extra["exhaustive_part"] = "all 2^(n*n) adjacency matrices for n <= %d" % nmax
     ctx.require_counter("immediate_dominators_calls" if which == "C18" else "compute_rpo_calls", 1000)
     ctx.require_counter("history_steps_checked", 200)
+    ctx.require_counter("pipeline_monitored_calls", 1000)
     ctx.min_distinct = 20
 
 
